@@ -51,7 +51,7 @@ func init() {
 		ID:    "C02",
 		Title: "The text reader decodes every valid spelling of a value to exactly that value",
 		Rule: "every document of the corpus and of the C01 value-sequence generator x every rendering the independent spec-derived printer produces with at most d deviations from the canonical spelling; a deviation is one non-default choice at one token: " +
-			"inter-token trivia (space, LF, CRLF, tab, /*c*/, //c, VT, FF) at every gap, null.null, int radix (0x/0X/0b) and underscore, decimal D/+/positional forms, float E/+ forms, timestamp Z vs +00:00 and trailing T, string short/long/split-long forms with each escape style (\\xHH, \\uHHHH, \\UHHHHHHHH, surrogate pair) and line continuation, symbol bare/quoted/operator forms, field names as symbol/string/long string, blob inner whitespace, clob short/long/split, trailing commas. " +
+			"inter-token trivia (space, LF, CRLF, lone CR, tab, /*c*/, a block comment holding a CR, //c ended by LF / CR / CRLF, VT, FF) at every gap, null.null, int radix (0x/0X/0b) and underscore, decimal D/+/positional forms, float E/+ forms, timestamp Z vs +00:00 and trailing T, string short/long/split-long forms with each escape style (\\xHH, \\uHHHH, \\UHHHHHHHH, surrogate pair) raw line breaks in long strings as LF / CRLF / CR, and line continuation by backslash + LF / CRLF / CR in every string form, symbol bare/quoted/operator forms, field names as symbol/string/long string, blob inner whitespace, clob short/long/split with raw LF / CRLF / CR line breaks in the long forms, trailing commas. " +
 			"non-trivial = the real Reader's full traversal was compared value-by-value with the model; distinct = distinct (document, text) digests",
 		Bounds:      map[string]string{"quick": "d<=1", "thorough": "d<=2"},
 		Assumptions: []string{"reftext printer (cross-checked against the reftext parser by its own tests and selfcheck) and refmodel equality are the trusted reference"},
